@@ -5,8 +5,9 @@
 // Only the loop logic, the Grid index functions, DirParam::getGrincr / getLagNumber / getDPas and
 // FFFF are library code: every other callee is overridden below and answers from symbolic tables.
 //
-// Concrete VF_NX x VF_NY grid (first index fastest), VF_NPAS lags; every grid increment grincr of
-// [-VF_INC,VF_INC]^2 (not null) in turn; symbolic selection, weights, keepPair answer per ordered pair.
+// Concrete VF_NX x VF_NY grid (first index fastest), VF_NPAS lags; one entry point per grid increment
+// grincr of [-2,2]^2 (not null; the registry lists those of [-1,1]^2 or all); symbolic selection,
+// weights, keepPair answer per ordered pair.
 // Reference: the ordered pair (i, j) reaches the estimator exactly once, with lag k and distance
 // k*dpas, iff both nodes are usable, keepPair accepts it and ind(j) - ind(i) == k*grincr for a
 // k in [1, npas); no other pair does.
@@ -34,9 +35,6 @@
 #ifndef VF_NPAS
 #define VF_NPAS 3
 #endif
-#ifndef VF_INC
-#define VF_INC 2
-#endif
 #define N (VF_NX * VF_NY)
 #define GRID (1 << 20)
 
@@ -46,7 +44,7 @@ static bool g_sel[N];
 static double g_w[N];
 static bool g_hasSel, g_hasW;
 static bool g_keep[N * N];
-static double g_kdist[N * N]; // what keepPair writes into *dist (must not reach the estimator)
+static double g_kdist;        // what keepPair writes into *dist (must not reach the estimator)
 static double g_dpas;
 
 // ---------------------------------------------------------------- recording
@@ -87,7 +85,7 @@ bool Vario::keepPair(int idir, SpaceTarget& T1, SpaceTarget& T2, double* dist) c
 {
   (void)idir;
   int i = loaded(&T1), j = loaded(&T2);
-  *dist = g_kdist[i * N + j];
+  *dist = g_kdist;
   return g_keep[i * N + j];
 }
 void Vario::_rescale(int idir) { (void)idir; }
@@ -184,7 +182,7 @@ static void run_increment(int ax, int ay)
   db->_grid._nx.~VectorInt();
 }
 
-extern "C" void k_gridpairs()
+static void draw_inputs()
 {
   // ---- symbolic inputs, drawn unconditionally
   for (int i = 0; i < N; i++)
@@ -196,18 +194,22 @@ extern "C" void k_gridpairs()
   }
   g_hasSel = vf_nondet_bool();
   g_hasW = vf_nondet_bool();
-  for (int p = 0; p < N * N; p++)
-  {
-    g_keep[p] = vf_nondet_bool();
-    g_kdist[p] = vf_grid_double(GRID);
-  }
+  for (int p = 0; p < N * N; p++) g_keep[p] = vf_nondet_bool();
+  g_kdist = vf_grid_double(GRID);
   double dp = vf_grid_double(GRID);
   g_dpas = 1. + (dp < 0. ? -dp : dp); // lag size > 0
-
-  // ---- every non-null grid increment of [-VF_INC, VF_INC]^2 in turn (concrete: the node ranks are then
-  // concrete and only the filters are symbolic)
-  for (int ax = -VF_INC; ax <= VF_INC; ax++)
-    for (int ay = -VF_INC; ay <= VF_INC; ay++)
-      if (ax != 0 || ay != 0) run_increment(ax, ay);
-  vf_witness();
 }
+
+// one entry per grid increment (concrete: the node ranks are then concrete and only the filters are
+// symbolic; separate entries keep the symbolic state of each run small)
+#define GP(name, ax, ay) extern "C" void name() { draw_inputs(); run_increment(ax, ay); vf_witness(); }
+#define M1 (-1)
+#define M2 (-2)
+GP(k_gp_m1_m1, M1, M1) GP(k_gp_m1_0, M1, 0) GP(k_gp_m1_1, M1, 1)
+GP(k_gp_0_m1, 0, M1)                        GP(k_gp_0_1, 0, 1)
+GP(k_gp_1_m1, 1, M1)   GP(k_gp_1_0, 1, 0)   GP(k_gp_1_1, 1, 1)
+GP(k_gp_m2_m2, M2, M2) GP(k_gp_m2_m1, M2, M1) GP(k_gp_m2_0, M2, 0) GP(k_gp_m2_1, M2, 1) GP(k_gp_m2_2, M2, 2)
+GP(k_gp_m1_m2, M1, M2) GP(k_gp_m1_2, M1, 2)
+GP(k_gp_0_m2, 0, M2)   GP(k_gp_0_2, 0, 2)
+GP(k_gp_1_m2, 1, M2)   GP(k_gp_1_2, 1, 2)
+GP(k_gp_2_m2, 2, M2)   GP(k_gp_2_m1, 2, M1) GP(k_gp_2_0, 2, 0) GP(k_gp_2_1, 2, 1) GP(k_gp_2_2, 2, 2)
